@@ -184,7 +184,7 @@ def chi_oracle(k, x, Q2, m2h):
     return x
 
 
-def run_assembly(ctx, cell, P, x, Q2, m2c, tag):
+def run_assembly(ctx, cell, P, x, Q2, m2c, tag, cvals=None):
     """Real ESF.compute_local with conv.convolution recorded; returns (esf, records)."""
     import yadism.coefficient_functions as cf
     from yadism.esf import conv, esf as esfmod
@@ -206,6 +206,9 @@ def run_assembly(ctx, cell, P, x, Q2, m2c, tag):
         c, e = round(r.uniform(-2, 2), 6), round(r.uniform(0, 1), 6)
         if ctx is not None:
             c, e = ctx.var_w(f"{tag}C{idx}", c), ctx.var_w(f"{tag}Ce{idx}", e, 0)
+        elif cvals:
+            # float re-run at a solver-chosen point: the recorded quadrature values are part of the point
+            c, e = cvals.get(f"{tag}C{idx}", c), cvals.get(f"{tag}Ce{idx}", e)
         records.append(dict(rsl=rsl, chi=chi, j=j, c=c, e=e))
         return c, e
 
@@ -228,11 +231,11 @@ def run_assembly(ctx, cell, P, x, Q2, m2c, tag):
     return e, records, basis
 
 
-def claims_assembly(ctx, cell, P, x, Q2, m2c):
+def claims_assembly(ctx, cell, P, x, Q2, m2c, cvals=None):
     import yadism.coefficient_functions as cf
     from eko import basis_rotation as br
 
-    e, records, basis = run_assembly(ctx, cell, P, x, Q2, m2c, "")
+    e, records, basis = run_assembly(ctx, cell, P, x, Q2, m2c, "", cvals=cvals)
     # the kernel list is recomputed independently through the real Combiner (C07/C02 check its content)
     ks = cf.Combiner(e).collect_elems()
     out = []
@@ -336,7 +339,7 @@ def replay_assembly(args):
     cell["ZMq"] = tuple(cell["ZMq"])
     P = cm.ew_params(values=args["params"])
     with cm.fixed_nf():
-        prs = claims_assembly(None, cell, P, args["params"]["x"], args["params"]["Q2"], args["params"]["m2c"])
+        prs = claims_assembly(None, cell, P, args["params"]["x"], args["params"]["Q2"], args["params"]["m2c"], cvals=args.get("cvals"))
     bad = harness.float_pairs_differ(prs, args.get("label"))
     return (True, f"{cell['name']}: {bad[:3]}") if bad else (False, "assembly formula holds at this point")
 
@@ -348,7 +351,8 @@ def float_pairs_assembly(args):
     cell = dict(args["cell"])
     cell["ZMq"] = tuple(cell["ZMq"])
     with cm.fixed_nf():
-        return claims_assembly(None, cell, cm.ew_params(values=args["params"]), args["params"]["x"], args["params"]["Q2"], args["params"]["m2c"])
+        return claims_assembly(None, cell, cm.ew_params(values=args["params"]), args["params"]["x"], args["params"]["Q2"], args["params"]["m2c"],
+                               cvals=args.get("cvals"))
 
 
 REPLAYERS["assembly:pairs"] = float_pairs_assembly
@@ -457,7 +461,9 @@ def run(chk, only=None):
                         def rp(model):
                             asg = explore.model_to_assign(ctx, model)
                             params = {k: float(asg.get(k, ctx.assign.get(k, 1))) for k in cm.EW_PARAMS + ["Q2", "x", "m2c"]}
-                            return "assembly", dict(cell={k: v for k, v in cell.items()}, params=params, label=lab)
+                            cvals = {k: float(asg.get(k, ctx.assign.get(k))) for k in ctx.vars if k.startswith("C") and k[1:].lstrip("e").isdigit()
+                                     and (k in asg or k in ctx.assign)}
+                            return "assembly", dict(cell={k: v for k, v in cell.items()}, params=params, label=lab, cvals=cvals)
                         return rp
 
                     harness.prove_pairs(chk, f"{cname}/path{i}", p.value, ctx.facts() + p.pc + p.generic, rp_for,
